@@ -103,7 +103,10 @@ CHECKS = {
                  "sdk/component.py and schedule.py (Component.initialize/connect/validate/update/finalize, _check_status and "
                  "its call sites with their literal status lists): tr_site_* (= the status automaton lcStep), "
                  "code_lifecycle_run, code_failed_hook_raises; the translation is validated exhaustively (every status x "
-                 "every hook behaviour) on the real methods, Composition.__init__ and _finalize_components. Tied to schedule.py / "
+                 "every hook behaviour) on the real methods, Composition.__init__ and _finalize_components; and on the regenerated "
+                 "_collect_adapters_input / _collect_adapters_output / Composition._collect_adapters: "
+                 "code_adapters_collected_once (the finalized set holds every adapter above an input or below an output exactly "
+                 "once), validated on live coupling forests. Tied to schedule.py / "
                  "sdk/component.py by the update-sequence correspondence and a life-cycle oracle on real runs (incl. "
                  "adapters that fan out to several inputs)."),
         "design_ref": "5/C03",
